@@ -192,8 +192,16 @@ where
         match vwalk.as_ref() {
             LTermInner::Var(_, _) => !vwalk.is_any(),
             LTermInner::Cons(head, tail) => self.is_unreified(head) || self.is_unreified(tail),
+            LTermInner::Compound(compound) => self.is_unreified_compound(compound.as_ref()),
             _ => false,
         }
+    }
+
+    fn is_unreified_compound(&self, compound: &dyn CompoundObject<U, E>) -> bool {
+        compound.children().any(|child| match child.as_term() {
+            Some(v) => self.is_unreified(v),
+            None => self.is_unreified_compound(child),
+        })
     }
 
     /// Collects the variables that occur in the fields of a compound object.
